@@ -92,28 +92,39 @@ def ask(spec):
     return out
 
 
-def close(a, b):
-    """Same shape, dtype and values (floats within summation-order tolerance)."""
+def close(a, b, check_dtype=True):
+    """Same shape, (dtype) and values (floats within summation-order tolerance)."""
     a, b = np.asarray(a), np.asarray(b)
     if a.shape != b.shape:
         return f"shape {a.shape} != {b.shape}", "shape-mismatch"
-    if a.dtype != b.dtype:
+    if check_dtype and a.dtype != b.dtype:
         return f"dtype {a.dtype} != {b.dtype}", "dtype-mismatch"
     if a.size == 0:
         return None
-    if a.dtype.kind in "fc":
+    if a.dtype.kind in "fc" or b.dtype.kind in "fc":
         with np.errstate(all="ignore"):
             fin = np.isfinite(b)
             mag = float(np.abs(b[fin]).max()) if fin.any() else 1.0
-            ok = np.allclose(a, b, rtol=1e-9, atol=1e-9 * max(mag, 1.0), equal_nan=True)
+            # (when only the dtype differs -- reported separately -- the coarser float type bounds the agreement)
+            rt = max([1e-9] + [8 * float(np.finfo(x.dtype).eps) for x in (a, b) if x.dtype.kind in "fc"])
+            ok = np.allclose(a, b, rtol=rt, atol=rt * max(mag, 1.0), equal_nan=True)
     else:
         ok = np.array_equal(a, b)
     return None if ok else (f"values {A.describe(a)} != {A.describe(b)}", "value-mismatch")
 
 
 def flags(spec):
-    items = [it for s in spec["steps"] if s["op"] == "slice" for it in s["index"]]
-    return dict(take=any(it[0] == "l" for it in items), dask_index=any(it[0] == "d" for it in items))
+    """Input-class flags for the signature (all structural, from the spec)."""
+    idx = [s["index"] for s in spec["steps"] if s["op"] == "slice"]
+    items = [it for ix in idx for it in ix]
+    return dict(
+        src=spec["src"]["kind"],
+        arange_str_dtype=spec["src"]["kind"] == "arange" and isinstance(spec["src"].get("dtype"), str),  # dtype='i8' rather than omitted
+        take=any(it[0] == "l" for it in items),  # integer-list index
+        dask_index=any(it[0] == "d" for it in items),  # dask integer array as index
+        none_after_int=any(it[0] == "n" and any(p[0] == "i" for p in ix[:k]) for ix in idx for k, it in enumerate(ix)),
+        has_stack=any(s["op"] == "stack" for s in spec["steps"]),
+    )
 
 
 def evaluate(spec):
@@ -144,12 +155,13 @@ def evaluate(spec):
         raise Reject(f"not implemented in the expression engine: {out['notimpl']['msg']}")
     if "error" in out:
         e = out["error"]
-        raise Violation(f"expression engine raised {e['type']}: {e['msg']} (stage {e['stage']}, step {e['step']})", f"raises:{e['type']}", stage=e["stage"], where=e["where"], masked=e.get("masked"), **sig)
+        raise Violation(f"expression engine raised {e['type']}: {e['msg']} (stage {e['stage']}, step {e['step']})", f"raises:{e['type']}", stage=e["stage"], where=e["where"], masked=e.get("masked"), meta_none=bool(e.get("meta_none")), **sig)
     v = out["variants"]
     plain = v["plain"]
     got = W.decode(plain["value"])
-    bad = close(got, want)
-    ensure(bad is None, f"expr result vs NumPy: {bad and bad[0]}", bad and bad[1], stage="numpy", **sig)
+    for dt in (False, True):  # values first, dtype second: a dtype-only deviation must not hide a wrong value
+        bad = close(got, want, check_dtype=dt)
+        ensure(bad is None, f"expr result vs NumPy: {bad and bad[0]}", bad and bad[1], stage="numpy", **sig)
     ensure(tuple(plain["shape"]) == got.shape, f"lazy shape {plain['shape']} != computed {got.shape}", "lazy-shape-mismatch", stage="meta", **sig)
     ensure(np.dtype(plain["dtype"]) == got.dtype, f"lazy dtype {plain['dtype']} != computed {got.dtype}", "lazy-dtype-mismatch", stage="meta", **sig)
     ensure(plain["chunks"] == cchunks, f"expr chunks {plain['chunks']} != classic engine chunks {cchunks}", "chunks-differ-from-classic", stage="classic", **sig)
@@ -166,17 +178,19 @@ def check(spec):
     try:
         out = evaluate(spec)
     except Violation as v:
-        # attribute the failure to the first step whose prefix already fails (stable, low-cardinality `op` for the signature)
+        # Report the FIRST failing prefix of the pipeline (its own message and signature): the most fundamental failure, and
+        # a stable low-cardinality `op` (the last step of that prefix) for the signature.
         op = spec["steps"][-1]["op"] if spec["steps"] else "source"
         for k in range(0, len(spec["steps"])):
             try:
                 evaluate({**spec, "steps": spec["steps"][:k]})
-            except Violation:
-                op = spec["steps"][k - 1]["op"] if k else "source"
+            except Violation as v2:
+                v, op = v2, (spec["steps"][k - 1]["op"] if k else "source")
                 break
             except Reject:
                 continue
-        raise Violation(v.message, v.sig["symptom"], op=op, **{k: x for k, x in v.sig.items() if k != "symptom"}) from None
+        # scalar_operand: that step combines the array with a Python scalar (finding scalar-operands-become-0d-arrays)
+        raise Violation(v.message, v.sig["symptom"], op=op, scalar_operand=op in ("scalar", "clip"), **{k: x for k, x in v.sig.items() if k != "symptom"}) from None
     count("optimize_changed_tree", int(out["changed"]))
     count("expr_evaluated")
 
@@ -234,7 +248,8 @@ def pipeline(draw):
         if kind == "arange":
             step = draw(st.sampled_from([1, 2, -1, 3]))
             start = draw(st.integers(-3, 3))
-            src = {"kind": kind, "start": start, "stop": start + step * n, "step": step, "dtype": dtype, "chunksize": draw(st.integers(1, n))}
+            src = {"kind": kind, "start": start, "stop": start + step * n, "step": step, "dtype": draw(st.sampled_from([dtype, None])), "chunksize": draw(st.integers(1, n))}
+            dtype = src["dtype"] or "i8"
         else:
             src, dtype = {"kind": kind, "start": draw(st.integers(-3, 3)), "stop": draw(st.integers(4, 9)), "num": n, "chunksize": draw(st.integers(1, n))}, "f8"
     else:
